@@ -18,6 +18,8 @@ import Aegean.Model.C01
                                                (the arguments of elliptical_gaussian in AeRes.make_model, given the oracle's answer p)
     render f2c peak xo yo sx sy theta x y   -> Gen.C01.renderVal
     palimit fuel pa                         -> paLimit
+    bounds ln2 f2c amp0 rms ic oc A B xs ys -> sampling amp_min amp_max xo_lim sx sy sx_min sx_max sy_min sy_max
+                                               (regenerated; the amplitude branch is chosen by the sign of amp0 as in the code)
 -/
 namespace Drv.C01
 open Drv Aegean.Model.C01
@@ -114,6 +116,16 @@ def handle (ws : List String) : String :=
     match takeFloats 9 rest with
     | some ([f2c, peak, xo, yo, sx, sy, th, x, y], []) =>
       showFloats [Gen.C01.renderVal f2c peak xo yo sx sy th x y, renderValHand f2c peak xo yo sx sy th x y]
+    | _ => "bad-op"
+  | "bounds" :: rest =>
+    match takeFloats 10 rest with
+    | some ([ln2, f2c, amp0, rms, ic, oc, a, b, xs, ys], []) =>
+      let lo := if amp0 > 0 then Gen.C01.ampMinPos ln2 f2c amp0 rms ic oc a b xs ys else Gen.C01.ampMinNeg ln2 f2c amp0 rms ic oc a b xs ys
+      let hi := if amp0 > 0 then Gen.C01.ampMaxPos ln2 f2c amp0 rms ic oc a b xs ys else Gen.C01.ampMaxNeg ln2 f2c amp0 rms ic oc a b xs ys
+      showFloats [Gen.C01.sampling ln2 f2c amp0 rms ic oc a b xs ys, lo, hi, Gen.C01.xoLim ln2 f2c amp0 rms ic oc a b xs ys,
+                  Gen.C01.sxInit ln2 f2c amp0 rms ic oc a b xs ys, Gen.C01.syInit ln2 f2c amp0 rms ic oc a b xs ys,
+                  Gen.C01.sxMin ln2 f2c amp0 rms ic oc a b xs ys, Gen.C01.sxMax ln2 f2c amp0 rms ic oc a b xs ys,
+                  Gen.C01.syMin ln2 f2c amp0 rms ic oc a b xs ys, Gen.C01.syMax ln2 f2c amp0 rms ic oc a b xs ys]
     | _ => "bad-op"
   | ["palimit", fuel, pa] =>
     match fuel.toNat?, parseFloat? pa with
